@@ -24,6 +24,82 @@ import (
 
 var nextID int
 
+// Statements that touch state shared between trees and goroutines: package-level
+// variables, sync/atomic calls, atomic or lock method calls. The point before such a
+// statement and the next point reached after it are listed in VerifSharedPoints —
+// the windows of a check-then-act on shared state open and close there, so the
+// scheduler of the race engine prefers them.
+var pkgVars = map[string]bool{}
+var topSpecs = map[any]bool{}
+var sharedIDs []int
+var markNext bool
+
+var syncMethods = map[string]bool{"Load": true, "Store": true, "CompareAndSwap": true, "Swap": true, "Add": true, "And": true, "Or": true,
+	"Lock": true, "Unlock": true, "RLock": true, "RUnlock": true, "TryLock": true}
+
+func exprTouches(n ast.Node) bool {
+	if n == nil {
+		return false
+	}
+	found := false
+	ast.Inspect(n, func(x ast.Node) bool {
+		if found {
+			return false
+		}
+		switch v := x.(type) {
+		case *ast.FuncLit:
+			return false
+		case *ast.BlockStmt:
+			return false
+		case *ast.Ident:
+			if pkgVars[v.Name] && (v.Obj == nil || topSpecs[v.Obj.Decl]) {
+				found = true
+			}
+		case *ast.SelectorExpr:
+			if id, ok := v.X.(*ast.Ident); ok && (id.Name == "atomic" || id.Name == "sync") && id.Obj == nil {
+				found = true
+			}
+		case *ast.CallExpr:
+			if sel, ok := v.Fun.(*ast.SelectorExpr); ok && syncMethods[sel.Sel.Name] {
+				found = true
+			}
+		}
+		return !found
+	})
+	return found
+}
+
+func nodeOrNil[T ast.Node](n T, isNil bool) ast.Node {
+	if isNil {
+		return nil
+	}
+	return n
+}
+
+// headerTouches: does the statement itself (for compound statements: its header,
+// not its nested blocks) touch shared state?
+func headerTouches(s ast.Stmt) bool {
+	switch x := s.(type) {
+	case *ast.BlockStmt:
+		return false
+	case *ast.IfStmt:
+		return exprTouches(nodeOrNil(x.Init, x.Init == nil)) || exprTouches(x.Cond)
+	case *ast.ForStmt:
+		return exprTouches(nodeOrNil(x.Init, x.Init == nil)) || exprTouches(nodeOrNil(x.Cond, x.Cond == nil)) || exprTouches(nodeOrNil(x.Post, x.Post == nil))
+	case *ast.RangeStmt:
+		return exprTouches(x.X)
+	case *ast.SwitchStmt:
+		return exprTouches(nodeOrNil(x.Init, x.Init == nil)) || exprTouches(nodeOrNil(x.Tag, x.Tag == nil))
+	case *ast.TypeSwitchStmt:
+		return exprTouches(nodeOrNil(x.Init, x.Init == nil)) || exprTouches(x.Assign)
+	case *ast.SelectStmt:
+		return true
+	case *ast.LabeledStmt:
+		return headerTouches(x.Stmt)
+	}
+	return exprTouches(s)
+}
+
 func pointStmt() ast.Stmt {
 	nextID++
 	id := &ast.BasicLit{Kind: token.INT, Value: fmt.Sprint(nextID)}
@@ -36,10 +112,18 @@ func pointStmt() ast.Stmt {
 func instrList(list []ast.Stmt) []ast.Stmt {
 	var out []ast.Stmt
 	for _, s := range list {
-		instrStmt(s)
+		touches := headerTouches(s)
 		if _, labeled := s.(*ast.LabeledStmt); !labeled {
 			out = append(out, pointStmt())
+			if touches || markNext {
+				sharedIDs = append(sharedIDs, nextID)
+				markNext = false
+			}
 		}
+		if touches {
+			markNext = true // the next point reached: the first nested one, or the one after s
+		}
+		instrStmt(s)
 		out = append(out, s)
 	}
 	return out
@@ -127,6 +211,13 @@ func instrumentFile(src, dst string) error {
 	f.Comments = keep
 	f.Doc = nil
 	for _, d := range f.Decls {
+		if gd, ok := d.(*ast.GenDecl); ok && gd.Tok == token.VAR {
+			for _, sp := range gd.Specs {
+				topSpecs[sp] = true
+			}
+		}
+	}
+	for _, d := range f.Decls {
 		if fd, ok := d.(*ast.FuncDecl); ok {
 			fd.Doc = nil
 			if fd.Body != nil {
@@ -138,7 +229,14 @@ func instrumentFile(src, dst string) error {
 			ast.Inspect(gd, func(n ast.Node) bool {
 				if fl, ok := n.(*ast.FuncLit); ok && !seenLit[fl] {
 					seenLit[fl] = true
+					from := nextID
 					instrBlock(fl.Body)
+					// a function stored in a package-level variable (a pool's New): all of it
+					for id := from + 1; id <= nextID; id++ {
+						if len(sharedIDs) == 0 || sharedIDs[len(sharedIDs)-1] != id {
+							sharedIDs = append(sharedIDs, id)
+						}
+					}
 					return false
 				}
 				return true
@@ -150,6 +248,17 @@ func instrumentFile(src, dst string) error {
 		return err
 	}
 	return os.WriteFile(dst, buf.Bytes(), 0o644)
+}
+
+func joinInts(a []int) string {
+	var b strings.Builder
+	for i, v := range a {
+		if i > 0 {
+			b.WriteString(", ")
+		}
+		fmt.Fprint(&b, v)
+	}
+	return b.String()
 }
 
 func copyFile(src, dst string) error {
@@ -180,6 +289,25 @@ func main() {
 		fmt.Fprintln(os.Stderr, err)
 		os.Exit(2)
 	}
+	for _, e := range ents {
+		name := e.Name()
+		if e.IsDir() || !strings.HasSuffix(name, ".go") || strings.HasSuffix(name, "_test.go") || strings.HasPrefix(name, "verif_") {
+			continue
+		}
+		if f, err := parser.ParseFile(token.NewFileSet(), filepath.Join(src, name), nil, parser.SkipObjectResolution); err == nil {
+			for _, d := range f.Decls {
+				if gd, ok := d.(*ast.GenDecl); ok && gd.Tok == token.VAR {
+					for _, sp := range gd.Specs {
+						for _, n := range sp.(*ast.ValueSpec).Names {
+							if n.Name != "_" {
+								pkgVars[n.Name] = true
+							}
+						}
+					}
+				}
+			}
+		}
+	}
 	files := 0
 	for _, e := range ents {
 		name := e.Name()
@@ -203,10 +331,10 @@ func main() {
 			}
 		}
 	}
-	hook := "package art\n\n// VerifPoint is called before every statement of the instrumented copy.\nvar VerifPoint func(int)\n\nconst VerifPointCount = " + fmt.Sprint(nextID) + "\n"
+	hook := "package art\n\n// VerifPoint is called before every statement of the instrumented copy.\nvar VerifPoint func(int)\n\nconst VerifPointCount = " + fmt.Sprint(nextID) + "\n\n// VerifSharedPoints: points around statements that touch package-level variables,\n// sync/atomic calls or atomic/lock methods.\nvar VerifSharedPoints = []int{" + joinInts(sharedIDs) + "}\n"
 	if err := os.WriteFile(filepath.Join(dst, "verif_point.go"), []byte(hook), 0o644); err != nil {
 		fmt.Fprintln(os.Stderr, err)
 		os.Exit(1)
 	}
-	fmt.Printf("instrumented %d files, %d points\n", files, nextID)
+	fmt.Printf("instrumented %d files, %d points (%d around shared state)\n", files, nextID, len(sharedIDs))
 }
